@@ -226,7 +226,7 @@ func subIP(out string, seed uint64, tier string, arg string) {
 	}
 	// ---- the two list-reading lints through the framework: several SAN addresses / several permitted subtrees per certificate, in
 	// both orders, nested and overlapping — the verdict is about each entry on its own ("any"), whatever else is listed
-	regL, lerr := lint.GlobalRegistry().Filter(lint.FilterOptions{IncludeNames: []string{"e_ext_san_contains_reserved_ip", "e_ext_nc_intersects_reserved_ip"}})
+	regL, lerr := lint.GlobalRegistry().Filter(lint.FilterOptions{IncludeNames: []string{"e_ext_san_contains_reserved_ip", "e_ext_nc_intersects_reserved_ip", "e_subject_contains_reserved_ip"}})
 	if lerr == nil {
 		enc := func(ip net.IP) string {
 			if v4 := ip.To4(); v4 != nil && len(ip) == 4 {
@@ -317,7 +317,41 @@ func subIP(out string, seed uint64, tier string, arg string) {
 				lintSAN([]net.IP{net.ParseIP(a), net.ParseIP(a), net.ParseIP(b)})
 			}
 		}
+		// the common-name lint: every textual spelling net.ParseIP accepts (upper- and lower-case hex, compressed and full forms,
+		// IPv4-mapped, leading zeros are refused) and strings that only look like addresses
+		for _, cn := range []string{"10.0.0.1", "8.8.8.8", "192.168.1.1", "127.0.0.1", "FD00::1", "fd00::1", "FE80::1", "fe80::1", "FF02::1", "2001:DB8::1", "2001:db8::1",
+			"2002:C000:204::", "100::DEAD:BEEF", "::FFFF:10.0.0.1", "::ffff:10.0.0.1", "::FFFF:8.8.8.8", "::1", "::", "2606:4700:4700::1111", "2606:4700:4700::111A",
+			"0:0:0:0:0:0:0:1", "FE80:0000:0000:0000:0000:0000:0000:0001", "fe80::1%eth0", "010.0.0.1", "10.0.0.1.", "10.0.0", "host.example.com", "fd00::g", "FD00::1 ", ""} {
+			der, err := BuildCert(CertSpec{DNS: []string{"ip.example.com"}, Subject: pkixName(cn), EKUs: []stdx509.ExtKeyUsage{stdx509.ExtKeyUsageServerAuth}})
+			if err != nil {
+				continue
+			}
+			o := parseObj("cert", "kit-ip-cn", der)
+			if o == nil || o.Cert.Subject.CommonName != cn {
+				continue
+			}
+			rs, p := lintObj(o, regL)
+			if p != "" || rs == nil || rs.Results["e_subject_contains_reserved_ip"] == nil {
+				continue
+			}
+			arg := "-"
+			if ip := net.ParseIP(cn); ip != nil {
+				if v4 := ip.To4(); v4 != nil {
+					arg = enc(net.IP(v4))
+				} else {
+					arg = enc(ip)
+				}
+			}
+			emit("iplint-cn\t"+arg+"\t"+hexOrDash(cn), fmt.Sprint(int(rs.Results["e_subject_contains_reserved_ip"].Status)))
+		}
 		rep.count("iplint-ops")
 	}
 	rep.write(filepath.Join(out, "report.json"))
+}
+
+func hexOrDash(s string) string {
+	if s == "" {
+		return "-"
+	}
+	return hexs([]byte(s))
 }
